@@ -72,13 +72,26 @@ Definition case_plans (c : case) : list (list call) :=
   | None => []
   end.
 
+(* When relays were asked and nothing is submitted, the instant at which Propose gives up is not
+   C05's business (the statement says: nothing is submitted); the code waits for the context, a
+   repair may return as soon as the last relay has failed.  Any instant up to the model's (the
+   deadline) is accepted there; everywhere else the instant is compared exactly. *)
+Definition ret_free (m : result) : bool :=
+  negb (is_some (o_submit m)) && negb (is_nil (concat (o_unblind m))).
+
+Definition with_ret (o : result) (t : N) : result :=
+  {| o_panic := o_panic o; o_events := o_events o; o_unblind := o_unblind o; o_submit := o_submit o; o_ret := t |}.
+
+Definition result_agrees (m o : result) : bool :=
+  result_eqb m (with_ret o (if ret_free m then o_ret m else o_ret o)) && (o_ret o <=? o_ret m).
+
 Definition agree (c : case) : bool :=
   let '((pevs, pok), res) := run (c_cfg c) (c_env c) (c_duty c) (c_prepare c) in
   events_eqb pevs (c_prep_events c)
   && bool_eqb pok (c_prep_ok c)
   && (* two relay goroutines acting at one fake instant: Go's scheduler decides, the model does not;
         the generator avoids it, and such a case is left to P_b *)
-     (negb (tie_free (e_deadline (c_env c)) (case_plans c)) || result_eqb res (c_obs c)).
+     (negb (tie_free (e_deadline (c_env c)) (case_plans c)) || result_agrees res (c_obs c)).
 
 (* ------------------------------------------------------------------------------------------- *)
 (* P_b: the property itself on the input and the OBSERVED behaviour; the model's [prepare], [propose]
@@ -140,9 +153,9 @@ Definition block_event_ok (c : case) (ev : event) : bool :=
   end.
 
 Definition count_events (f : event -> bool) (l : list event) : nat := length (filter f l).
-Definition is_sign_block (ev : event) : bool := match ev with ESignBlock _ _ _ _ _ _ _ => true | _ => false end.
-Definition is_sign_randao (ev : event) : bool := match ev with ESignRandao _ _ _ => true | _ => false end.
-Definition is_proposal (ev : event) : bool := match ev with EProposal _ _ _ _ => true | _ => false end.
+Definition ev_sign_block (ev : event) : bool := match ev with ESignBlock _ _ _ _ _ _ _ => true | _ => false end.
+Definition ev_sign_randao (ev : event) : bool := match ev with ESignRandao _ _ _ => true | _ => false end.
+Definition ev_proposal (ev : event) : bool := match ev with EProposal _ _ _ _ => true | _ => false end.
 
 (* the signed block vouch must hold once the signer answered: the obtained block, that signature *)
 Definition expected_signed (c : case) : option sproposal :=
@@ -188,7 +201,7 @@ Definition unblind_calls_ok (c : case) : bool :=
            && match nth_error (e_relays (c_env c)) i with Some r => r_can r | None => false end
            && Nat.leb (length calls) 3
            && proposal_blinded c
-           && Nat.eqb (count_events is_sign_block (o_events obs)) 1
+           && Nat.eqb (count_events ev_sign_block (o_events obs)) 1
            && match expected_signed c with
               | Some sp =>
                   forallb (fun call =>
@@ -223,7 +236,7 @@ Definition submit_ok (c : case) : bool :=
   match o_submit (c_obs c) with
   | None => true
   | Some (t, sp) =>
-      Nat.eqb (count_events is_sign_block (o_events (c_obs c))) 1
+      Nat.eqb (count_events ev_sign_block (o_events (c_obs c))) 1
       && match expected_signed c with
          | None => false
          | Some signed =>
@@ -249,7 +262,7 @@ Definition some_call_answered (c : case) : bool :=
     | Some r => existsb (fun kc => is_ok (scripted r (fst kc))) (indexed 0 calls)
     end) (indexed 0 (o_unblind (c_obs c))).
 
-Definition no_relay_no_submit (c : case) : bool :=
+Definition no_relay_no_submit_b (c : case) : bool :=
   negb (proposal_blinded c) || some_call_answered c || negb (is_some (o_submit (c_obs c))).
 
 (* the RANDAO reveal the duty carries into Propose: the one it had, unless Prepare succeeded *)
@@ -268,7 +281,7 @@ Definition degrades_ok (c : case) : bool :=
   let evs := o_events (c_obs c) in
   negb (duty_ready c && negb (randao_of c =? 0))
   || (existsb (event_eqb (EProposal (d_slot (c_duty c)) (randao_of c) (graffiti_value (c_env c)) (c_boost (c_cfg c)))) evs
-      && Nat.eqb (count_events is_proposal evs) 1
+      && Nat.eqb (count_events ev_proposal evs) 1
       && match e_proposal (c_env c) with
          | POk p =>
              negb (negb (p_blinded p) && known_version (p_version p) && p_body_present p
@@ -284,7 +297,7 @@ Definition other_slot_refused (c : case) : bool :=
   | Some h => (h_slot h =? d_slot (c_duty c))
   | None => false
   end
-  || (Nat.eqb (count_events is_sign_block (o_events (c_obs c))) 0
+  || (Nat.eqb (count_events ev_sign_block (o_events (c_obs c))) 0
       && is_nil (concat (o_unblind (c_obs c)))
       && match o_submit (c_obs c) with None => true | Some _ => false end).
 
@@ -297,12 +310,12 @@ Definition unready_silent (c : case) : bool :=
 Definition P_b (c : case) : bool :=
   negb (o_panic (c_obs c))
   && forallb (randao_event_ok c) (c_prep_events c)
-  && Nat.leb (count_events is_sign_randao (c_prep_events c)) 1
+  && Nat.leb (count_events ev_sign_randao (c_prep_events c)) 1
   && forallb (block_event_ok c) (o_events (c_obs c))
-  && Nat.leb (count_events is_sign_block (o_events (c_obs c))) 1
+  && Nat.leb (count_events ev_sign_block (o_events (c_obs c))) 1
   && unblind_calls_ok c
   && submit_ok c
-  && no_relay_no_submit c
+  && no_relay_no_submit_b c
   && degrades_ok c
   && other_slot_refused c
   && unready_silent c.
